@@ -205,3 +205,25 @@ def derived_map(fn: loader.Func, name: str, depth: int = 0):
             ren = {"VAL_": iv}
             return (ibase, canon(_subst(key, ren)), canon(_subst(value, ren)), list(ifilters) + [canon(_subst(f, ren)) for f in filters])
     return (canon(base), canon(key), canon(value), [canon(f) for f in filters])
+
+
+def through_properties(repo: loader.Repo, fn: loader.Func, e: ast.AST, depth: int = 3) -> ast.AST:
+    """Replace ``self.P`` by what the property getter P of the same class returns when that getter is ``[assert ...;] return <expr>``
+    (reading through a trivial accessor is reading the attribute)."""
+    if fn.cls is None or depth <= 0:
+        return e
+    getters: Dict[str, ast.AST] = {}
+    for m in fn.cls.node.body:
+        if isinstance(m, ast.FunctionDef) and any(isinstance(d, ast.Name) and d.id == "property" for d in m.decorator_list):
+            body = [s for s in m.body if not isinstance(s, ast.Assert) and not (isinstance(s, ast.Expr) and isinstance(s.value, ast.Constant))]
+            if len(body) == 1 and isinstance(body[0], ast.Return) and body[0].value is not None:
+                getters[m.name] = body[0].value
+
+    class T(ast.NodeTransformer):
+        def visit_Attribute(self, node: ast.Attribute):
+            self.generic_visit(node)
+            if isinstance(node.value, ast.Name) and node.value.id == "self" and node.attr in getters and isinstance(node.ctx, ast.Load):
+                return copy.deepcopy(getters[node.attr])
+            return node
+    out = T().visit(copy.deepcopy(e))
+    return out if canon(out) == canon(e) else through_properties(repo, fn, out, depth - 1)
